@@ -76,6 +76,8 @@ def shrink(pool, prop: str, tier: str, hashseed: int, tape: list[int], vclass: s
 # ------------------------------------------------------------------ structural minimisation
 import copy
 
+from .gen import in_claimed_domain  # noqa: E402
+
 
 def _refs(e, acc):
     if isinstance(e, list):
@@ -226,6 +228,11 @@ def structural(pool, prop: str, case: dict, vclass: str, budget: int, batch: int
             cands = list(itertools.islice(gen, batch))
             if not cands:
                 break
+            # stay inside the claimed domain (no constant folding on which compiler and run-time
+            # arithmetic disagree): a candidate outside it would fail for an unclaimed reason
+            cands = [c for c in cands if all(in_claimed_domain(c[k]) for k in _stmt_lists(c))]
+            if not cands:
+                continue
             tasks = [{"id": next(_ids), "prop": prop, "kind": "case", "case": c,
                       "hashseed": hsd, "want_case": True} for c in cands]
             answers = pool.run_all(tasks)
